@@ -44,7 +44,7 @@ func (m *ModelServer) ListConsumables(_ context.Context, request *traits.ListCon
 	}
 	pageSize := capPageSize(int(request.GetPageSize()))
 
-	sortedItems := m.model.ListConsumables(resource.WithReadMask(request.ReadMask))
+	sortedItems := m.model.ListConsumables() // unmasked: paging goes by the items' keys, which a read mask may leave out
 	nextIndex := 0
 	if lastKey != "" {
 		nextIndex = sort.Search(len(sortedItems), func(i int) bool {
@@ -70,7 +70,10 @@ func (m *ModelServer) ListConsumables(_ context.Context, request *traits.ListCon
 	if err != nil {
 		return nil, err
 	}
-	result.Consumables = sortedItems[nextIndex:upperBound]
+	readConfig := resource.ComputeReadConfig(resource.WithReadMask(request.ReadMask))
+	for _, item := range sortedItems[nextIndex:upperBound] {
+		result.Consumables = append(result.Consumables, readConfig.FilterClone(item).(*traits.Consumable))
+	}
 	return result, nil
 }
 
@@ -125,7 +128,7 @@ func (m *ModelServer) ListInventory(_ context.Context, request *traits.ListInven
 	}
 	pageSize := capPageSize(int(request.GetPageSize()))
 
-	sortedItems := m.model.ListInventory(resource.WithReadMask(request.ReadMask))
+	sortedItems := m.model.ListInventory() // unmasked: paging goes by the items' keys, which a read mask may leave out
 	nextIndex := 0
 	if lastKey != "" {
 		nextIndex = sort.Search(len(sortedItems), func(i int) bool {
@@ -151,7 +154,10 @@ func (m *ModelServer) ListInventory(_ context.Context, request *traits.ListInven
 	if err != nil {
 		return nil, err
 	}
-	result.Inventory = sortedItems[nextIndex:upperBound]
+	readConfig := resource.ComputeReadConfig(resource.WithReadMask(request.ReadMask))
+	for _, item := range sortedItems[nextIndex:upperBound] {
+		result.Inventory = append(result.Inventory, readConfig.FilterClone(item).(*traits.Consumable_Stock))
+	}
 	return result, nil
 }
 
